@@ -653,8 +653,8 @@ func (x *Exec) lookupVar(fr *Frame, b *ssa.BasicBlock, upto int, name string, st
 				if !ok || id.Name != name {
 					continue
 				}
-				if _, isVar := t.Object().(*types.Var); !isVar {
-					continue
+				if tv, isVar := t.Object().(*types.Var); !isVar || tv.IsField() {
+					continue // not a variable (x.f records a DebugRef for the field identifier f)
 				}
 				v, ok := fr.vals[t.X]
 				if !ok {
